@@ -12,24 +12,33 @@ CHECKS = {
         technique="property-based testing of whole workflows through the real client Service and the real server handler over a "
                   "loopback websocket; oracle = delivered result bytes deserialize to DB.get(w, empty)",
         text="Generated (scheme, config, JSON database with UTF-8 keywords and mixed-case hex ids, order of workflow prefixes, "
-             "client re-creation bits at every step boundary, keyword sequence with absent/repeated keywords, optional server "
-             "restart) workflows run in one process against the real frontend; every delivered result must equal the posting "
+             "client re-creation bits at every step boundary, keyword sequence with absent/repeated keywords, per-search delivery "
+             "style (wait=True callback / once-handler + non-blocking search), optional server restart: clean, hard (modules "
+             "reloaded) or - one case in eight - the server is a real process SIGKILLed right after the upload acknowledgement "
+             "or between searches while the client's connection is open) workflows run against the real frontend, also through "
+             "frontend.client.commands; every delivered result must equal the posting "
              "list, hex/int views must reproduce the JSON identifiers and every step whose prerequisites hold must complete.",
-        note="Cleanup pause is a zero-delay shim; a restart is 'stop listening, fresh ServicesManager, listen again'."),
+        note="The cleanup pause is a gate owned by the driver (reconnects inside and after it); a clean restart is 'stop listening, "
+             "fresh ServicesManager, listen again', the killed-process variant loses whatever the server had not written."),
     "C10": dict(
         category="exploration", design="DESIGN.md §3 C10",
         technique="model-based testing of raw protocol histories against a 3-state reference model (trace equality) over real "
                   "loopback websockets; exhaustive enumeration of all histories of depth <= 4 (quick) / <= 5 (thorough) over a "
-                  "6-letter alphabet plus Hypothesis histories with foreign-sid / unknown-type messages and restarts",
-        text="Histories of config(c1|c2), upload(e1|e2), search, foreign-sid, unknown-type messages, reconnects and restarts on one "
-             "sid are executed against the real handler; init-echo states, ok/refused outcomes and result payloads must equal "
+                  "7-letter alphabet plus Hypothesis histories with foreign-sid / unknown-type messages, pipelined request pairs, "
+                  "reconnects inside the cleanup pause, clean and hard restarts and a companion service",
+        text="Histories of config(c1|c2), upload(e1|e2), search, foreign-sid, unknown-type messages, two requests pipelined on one "
+             "connection, reconnects (also inside the server's cleanup pause), clean/hard restarts and a companion service sharing a "
+             "40-character id prefix on one sid are executed against the real handler; init-echo states, ok/refused outcomes and result payloads must equal "
              "those of the forward-only write-once model, the stored config/index must be the accepted ones.",
-        note="Refusal = ok:False reply or closure; control messages are skipped; connections are strictly consecutive."),
+        note="Refusal = ok:False reply or closure; control messages are skipped; connections are strictly consecutive; in a pipeline a "
+             "reply may be lost with the closure that a later refused request causes (the state is then checked by the next init echo)."),
     "C11": dict(
         category="exploration", design="DESIGN.md §3 C11",
         technique="model-based testing of client operation sequences against a 5-flag reference model (accept/refuse, persisted "
                   "flags, file immutability on refusal, key immutability, final searches); exhaustive depth <= 4/5 over 6 operations",
-        text="Every operation runs on a client Service freshly loaded from disk against a live in-process server; acceptance must "
+        text="Every operation runs on a client Service freshly loaded from disk (a third of the cases: through the command functions of "
+             "frontend.client.commands, outcome read from what they print) against a live in-process server; operations include "
+             "create-service with an invalid / the stored / a missing configuration; acceptance must "
              "follow the documented prerequisite relation, persisted flags must equal the model, refused operations must leave all "
              "files byte-identical, the key file never changes, invalid configurations create no service, and once the index is "
              "uploaded every search returns DB[w].",
@@ -37,10 +46,11 @@ CHECKS = {
     "C12": dict(
         category="exploration", design="DESIGN.md §3 C12",
         technique="schedule exploration with a harness-owned scheduler: stateless DFS enumeration of all interleavings of opens, "
-                  "script steps and cleanup-delay releases for small scripts over an in-memory transport with the server's exact "
+                  "script steps, cleanup-delay releases, server-armed timeouts and a burst of background connections for small scripts over an in-memory transport with the server's exact "
                   "websocket surface, Hypothesis for larger scripts, history invariants as oracle, every violation re-executed "
                   "over real loopback sockets",
-        text="The server's only timing source (the 1 s cleanup sleep) is a gate released by the schedule and the loop is run to "
+        text="The server's timing sources (asyncio.sleep and wait_for timeouts in the server modules) are a gate and a timer controller "
+             "driven by the schedule, 130-300 connections of other services can open as one more event, and the loop is run to "
              "quiescence after each event, so interleavings are explored deterministically: all schedules of 2 connections "
              "(scripts <= 1 + selected <= 2 in quick, all <= 2 in thorough) and 3 connections (scripts <= 1). Invariants: no reply "
              "to a later connection while an earlier one is open; probe state >= every acknowledged state; the acknowledged "
@@ -50,7 +60,7 @@ CHECKS = {
         category="fault_enumeration", design="DESIGN.md §3 C13",
         technique="fault injection by real process kill (os._exit) at every enumerated file-system mutation of every persisting "
                   "handler, in child processes, followed by a scripted user recovery and an end-to-end search oracle",
-        text="A dry run lists every mkdir / open-for-write / write / close / unlink / replace of the server's config and index "
+        text="A dry run lists every mkdir / open-for-write / write / flush / close / unlink / replace of the server's config and index "
              "handlers and close_service and of each client command; the component is killed immediately before each mutation and "
              "with torn first/last writes, restarted on the same directory, the interrupted command is re-run and the workflow "
              "finished: the handshake must succeed with a state matching the files on disk and all searches must equal DB[w]. "
@@ -63,13 +73,16 @@ CHECKS = {
         text="For each of the nine schemes, configurations from the supported grid and databases built by construction (boundary "
              "length profiles: N=1, one list of 2^t postings, lists on block/level/case thresholds, structured keyword families, "
              "four identifier layouts) are encrypted under a seeded DRBG and every stored keyword is searched; the answer must "
-             "equal the posting list (order included; set for DP17) and no call may raise. All partitions of N <= 9 / 16 are "
+             "equal the posting list (order included; set for DP17), token by token and as a batch (tokens generated first, searched in "
+             "another order, one reused), and no call may raise. Eight schemes also get a keyword in 2^16-1 / 2^16 / 2^16+1 documents. "
+             "All partitions of N <= 9 / 16 are "
              "enumerated as profiles, and the default configurations are exercised at 64/65/128 (thorough: 4096/4097) postings.",
         note="Database validity is the quantifier of C01; sizes are bounded to a few hundred postings per case (4097 in thorough)."),
     "C02": dict(
         category="exploration", design="DESIGN.md §3 C02",
         technique="property-based testing: absent-keyword queries (prefix, suffix, NUL-extended, doubled, bit-flipped, case-swapped, "
-                  "max-length, random) against C01's generated indexes, oracle = empty result and no exception",
+                  "max-length, top/bottom of the keyword space, numeric neighbours, random) against C01's generated indexes, incl. an earlier "
+                  "index searched after the same scheme object encrypted another database; oracle = empty result and no exception",
         text="On the same generated (scheme, config, key, DB) cases as C01, up to ~20 valid keywords that are not in the database "
              "and are adversarially close to stored ones are searched, interleaved with present keywords; each must return an "
              "empty result of the scheme's result type without raising.",
@@ -77,7 +90,8 @@ CHECKS = {
     "C03": dict(
         category="exploration", design="DESIGN.md §3 C03",
         technique="round-trip and differential property-based testing: serialize/deserialize equality, a harness-side 'server' built "
-                  "only from the JSON config + bytes through the by-name loader, and key reload in a fresh scheme instance",
+                  "only from the JSON config + bytes through the by-name loader (every fifth case: in ANOTHER PROCESS with its own hash seed), "
+                  "key reload in a fresh scheme instance, posting lists around 2^16 documents",
         text="For generated cases with width-bearing fields moved off their defaults, key/token/EDB/result round-trip to equal "
              "objects; a server that holds only json(config), EDB bytes and token bytes returns DB.get(w, empty) after result "
              "serialization for present and absent keywords; a fresh scheme instance with the key reloaded from bytes regenerates "
@@ -86,7 +100,8 @@ CHECKS = {
     "C04": dict(
         category="exploration", design="DESIGN.md §3 C04",
         technique="property-based testing with byte-level oracles: substring absence of high-entropy keywords/identifiers, pairwise "
-                  "distinct 16-byte ciphertext blocks, disjoint blocks across two setups, keyed labels/tokens",
+                  "distinct 16-byte ciphertext blocks, disjoint blocks across two setups (same process, fresh interpreters, forked workers), "
+                  "keyed labels/tokens",
         text="Database shapes are Hypothesis-generated (incl. one identifier under every keyword) and contents are DRBG output long "
              "enough that an accidental hit is < 1e-15; EDB and token bytes must not contain any keyword or (except SSE-2) "
              "identifier, all ciphertext blocks of one index are distinct, two setups of the same (key, DB) share no block, and "
@@ -105,7 +120,7 @@ CHECKS = {
         category="exploration", design="DESIGN.md §3 C06",
         technique="metamorphic property-based testing (keyword-order permutation under an identically re-seeded DRBG: sorted tables, "
                   "equal label sequences) and recording-list instrumentation of array reads across two setups with computed "
-                  "false-alarm bounds < 1e-15",
+                  "false-alarm bounds < 1e-15, incl. a setup in a fresh interpreter and databases with more than 2^16 table entries",
         text="(i) For the four CJJ14 schemes, CT14 and ANSS16 the keys of every table of the serialized index are ascending and the "
              "(real) label sequence is invariant under permuting the input order. (ii) For PiPtr, Pi2Lev, SSE-1 and DP17 the slots "
              "read by Search differ between two setups, are not the sequential allocation, and DP17 buckets are not in un-shuffled "
@@ -122,7 +137,8 @@ CHECKS = {
     "C08": dict(
         category="exploration", design="DESIGN.md §3 C08",
         technique="property-based testing over a configuration edit grid with a disjunctive oracle (raises somewhere OR all searches "
-                  "correct); complete sweeps of single-key deletions and single-field edits",
+                  "correct, each token used twice, one case in six also searched by another process); complete sweeps of single-key "
+                  "deletions and single-field edits",
         text="Base configurations receive 1-3 edits from the value grids (valid, boundary, out-of-range, wrong-typed, wrong-kind "
              "names); a database valid for the edited configuration is encrypted and searched. A completed run with any wrong "
              "result is a violation; a deleted key must be refused at build time or be unneeded. Every single-field edit and "
@@ -132,7 +148,8 @@ CHECKS = {
     "C18": dict(
         category="exploration", design="DESIGN.md §3 C18",
         technique="property-based testing against a list-of-bits reference model: exhaustive enumeration (<= 8 bits), "
-                  "Hypothesis generation (lengths 0..300, boundary values), atheris coverage-guided stage in thorough",
+                  "Hypothesis generation (lengths 0..300, boundary values, operation chains, several live iterators), atheris "
+                  "coverage-guided stage in thorough",
         text="Every public value-level operation of Bitset and the halving helpers is compared (value and length) with an "
              "independent MSB-first list-of-bits model: exhaustively for all values of lengths 0..8 (unary) and all pairs of "
              "lengths 0..6 (binary), on the 2^k-1/2^k/2^k+1 family up to k=400, and on Hypothesis-generated operands up to 300 "
@@ -142,7 +159,8 @@ CHECKS = {
     "C14": dict(
         category="exploration", design="DESIGN.md §3 C14",
         technique="property-based testing: round-trip + length law + freshness + independent AES-CBC/PKCS7 reference; every "
-                  "message length 0..80 enumerated, Hypothesis for random lengths and contract breaches",
+                  "message length 0..80 enumerated, Hypothesis for random lengths and contract breaches, multi-key call histories on one "
+                  "cipher object (all orders to depth 3-4)",
         text="Every message length 0..80 for the three key lengths (several keys each) plus Hypothesis-generated keys, messages "
              "up to 5000 bytes and contract-breach cases are run through Encrypt/Decrypt under a seeded non-repeating DRBG; "
              "round-trip, the length law, IV/ciphertext freshness, wrong-key behaviour and agreement with an independent "
@@ -150,7 +168,8 @@ CHECKS = {
         note="Trusts the cryptography package's AES/CBC/PKCS7 as reference; freshness is a necessary-condition check on bytes."),
     "C15": dict(
         category="exploration", design="DESIGN.md §3 C15",
-        technique="exhaustive bijection/inverse enumeration for n in 2..12 per sampled key, Hypothesis for n up to 2100 bits, "
+        technique="exhaustive bijection/inverse enumeration for n in 2..12 per sampled key (inputs obtained by eight Bitset construction "
+                  "routes), Hypothesis for n up to 2100 bits, "
                   "differential test of the byte PRPs against an independent Feistel, atheris stage in thorough",
         text="For each sampled key (6 quick / 16 thorough, key lengths 0..64) all 8188 points of n=2..12 are enumerated: image "
              "equals the domain, both inverse directions hold, BitwiseFPEPRP agrees with the cipher. Random n up to 2100 (odd, "
@@ -161,7 +180,8 @@ CHECKS = {
     "C16": dict(
         category="exploration", design="DESIGN.md §3 C16",
         technique="differential property-based testing against an independent RFC 5246 P_hash / counter-mode / XOF reference; "
-                  "all output lengths 1..200 enumerated per digest, Hypothesis beyond, atheris stage in thorough",
+                  "all output lengths 1..200 enumerated per digest, all call histories to depth 4-5 on one PRF object with declared lengths, "
+                  "Hypothesis beyond, atheris stage in thorough",
         text="HmacPRF over sha1/sha256/sha512/md5 and the hash wrapper over those plus shake_128/256 are compared byte for byte "
              "with an independent reference for every output length 1..200 on short inputs and for Hypothesis-generated "
              "keys (0..80), messages (0..200) and lengths up to 2000; exact length, determinism, pairwise distinctness on "
@@ -169,8 +189,8 @@ CHECKS = {
         note="Trusts hmac/hashlib; digest names are the spellings the schemes' configurations use."),
     "C17": dict(
         category="exploration", design="DESIGN.md §3 C17",
-        technique="round-trip property-based testing (Hypothesis + explicit (id size x capacity) grid sweep), atheris stage in "
-                  "thorough",
+        technique="round-trip property-based testing (Hypothesis + explicit (id size x capacity) grid sweep), histories of interleaved / "
+                  "abandoned partition generators against an independent block computation, atheris stage in thorough",
         text="partition/parse of identifier blocks is round-tripped through both parsers over an (id size x capacity) grid "
              "(8x8 quick, complete 40x70 thorough) with list lengths around multiples of the capacity and 4 block sizes, and on "
              "Hypothesis-generated lists up to 300 ids incl. ids with leading/trailing zero bytes; split/join, int<->bytes at any "
@@ -181,16 +201,16 @@ CHECKS = {
         category="exploration", design="DESIGN.md §3 C19",
         technique="model-based testing of generated operation histories (Hypothesis-generated op lists interpreted against a "
                   "list-of-padded-items reference model, directory invariant after every step)",
-        text="2400 (quick) / 48000 (thorough) generated histories of up to 25 / 40 operations over arrays with 1..40 items, item "
+        text="6400 (quick) / 160000 (thorough) generated histories of up to 25 / 40 operations over arrays with 1..40 items, item "
              "size 1..9 and every chunk size 1..len+2 are executed against SPFLBArray and a list model; every observation, a "
-             "full read after every failing operation, use-after-close, reopen durability and the set of files in the array's "
+             "full read after every failing operation, an iterator kept alive across writes, use-after-close, reopen durability and the set of files in the array's "
              "directory are compared after each step.",
         note="A refusal is any raised exception; scratch directories are private to a case."),
     "C20": dict(
         category="exploration", design="DESIGN.md §3 C20",
         technique="model-based testing of generated operation histories against a dict reference model",
         text="Generated histories (up to 30 / 50 steps, 6-key universe) over PickledDict (full life cycle incl. close/open, "
-             "use-after-close, create-over-existing, open-missing, from_dict independence) and DBMDict (one open session, "
+             "use-after-close, create-over-existing, open-missing, from_dict from dicts and dict subclasses and its independence) and DBMDict (one open session, "
              "use-after-close at the end) are compared with a plain dict after every step.",
         note="Only dbm.dumb exists here, so DBMDict reopen/path errors are outside the stated scope; bytearray aliasing is "
              "not asserted."),
